@@ -42,6 +42,17 @@ def write_case(c, wd, rng, eol):
     stem = os.path.join(wd, f"{fmt}_{''.join(map(str, perm))}_{c['nv']}_{defect.replace('+', 'p').replace('-', 'm')}")
     if fmt in ("mseed1", "mseed3", "sac_le", "sac_be"):
         vec = vectors(rng, n, False)
+        # what a file stores is what comes back - for every sample encoding of miniSEED: single precision (as before), 32-bit integer
+        # counts beyond 2^24 (a 32-bit digitiser, a large offset: not representable in single precision) and double precision
+        enc = "f4"
+        if fmt in ("mseed1", "mseed3") and defect == "none":
+            enc = ("f4", "i4", "f8")[(c["nv"] + sum(perm)) % 3]
+        if enc == "i4":
+            vec = [np.round(v * 1000.0) + 2.0 ** 26 + 1.0 + 2.0 * k_ for k_, v in enumerate(vec)]
+        elif enc == "f8":
+            vec = [v * (1.0 + 2.0 ** -40) + 2.0 ** -30 for v in vec]
+        else:
+            vec = [v.astype(np.float32).astype(np.float64) for v in vec]
         order = list(perm)
         labels = [names[v - 1] for v in order]
         data = [vec[v - 1] for v in order]
@@ -51,7 +62,7 @@ def write_case(c, wd, rng, eol):
             labels[1], data[1] = labels[0], data[0]
         elif defect == "unknown":
             labels[1] = "BH1"
-        trs = [Trace(d.astype(np.float32), header=dict(sampling_rate=fs, channel=l, station="VRF", network="XX", starttime=UTCDateTime(2021, 3, 4)))
+        trs = [Trace(d.astype({"f4": np.float32, "i4": np.int32, "f8": np.float64}[enc]), header=dict(sampling_rate=fs, channel=l, station="VRF", network="XX", starttime=UTCDateTime(2021, 3, 4)))
                for l, d in zip(labels, data)]
         if fmt == "mseed1":
             fn = stem + ".mseed"
